@@ -25,7 +25,7 @@ def c06(tier):
 def c16(tier):
     n = 3 if tier == "quick" else 5
     jobs = [Job("h_c16::diff_roundtrip", p, {"hash_order": "fixed"}, budget_s=1500, validate=(30 if tier == "quick" else 50)) for p in pairs(n)]
-    chains = [(7, 3, 0), (7, 3, 1), (3, 4, 0), (3, 3, 2)] if tier == "quick" else [(7, 3, 0), (7, 3, 1), (3, 4, 0), (3, 3, 2), (3, 4, 1), (12, 3, 0), (5, 4, 1), (7, 4, 2)]
+    chains = [(7, 3, 0), (7, 3, 1), (3, 4, 0), (3, 4, 2)] if tier == "quick" else [(7, 3, 0), (7, 3, 1), (3, 4, 0), (3, 4, 2), (3, 4, 1), (12, 3, 0), (5, 4, 1), (7, 4, 2)]
     for c in chains:
         jobs.append(Job("h_c04::array_chain", c, dict(S2), budget_s=3000, validate=30))
     return dict(
